@@ -495,6 +495,11 @@ fn parse_opts() -> Opts {
         }
         i += 1;
     }
+    if o.tier == Tier::Thorough && o.budget_s.is_none() {
+        // thorough runs are bounded by wall clock as well as by case counts: when the budget is
+        // hit the shards stop and the evidence reports what was covered (never a violation)
+        o.budget_s = Some(5400);
+    }
     o
 }
 
@@ -830,6 +835,11 @@ fn run_child(prop: &Property, opts: &Opts, root: &Path) -> i32 {
                             cfg.cases = n as u32;
                             let mut chunk_runner = TestRunner::new_with_rng(cfg, runner.new_rng());
                             let r = chunk_runner.run(&strategy, |bytes| {
+                                // another shard already has a shrunk failure: finish quickly (also
+                                // ends an ongoing shrink of this shard at its current best input)
+                                if stop.load(Ordering::Relaxed) {
+                                    return Ok(());
+                                }
                                 if let Some(j) = &journal {
                                     j.record(ti as u32, &bytes);
                                 }
